@@ -266,9 +266,9 @@ theorem rec_fabric_write (n : Node) (f f' : Fabric) (hidx : f'.idx = f.idx) (hge
     cases b <;> exact this
 
 theorem rec_write (cfg : Cfg) (n : Node) (sid : Nat) (mode : Mode) (op : Op) (hg : GenInv n) (h : Rec n)
-    (hop : (∃ s v, op = .acl s v) ∨ (∃ s v, op = .grp s v) ∨ (∃ s v, op = .label s v)) :
+    (hop : (∃ s v, op = .acl s v) ∨ (∃ s v, op = .grp s v) ∨ (∃ s v, op = .label s v) ∨ (∃ s, op = .fwrite s)) :
     Rec (sessOp cfg n sid mode op).1 := by
-  rcases hop with ⟨s, v, rfl⟩ | ⟨s, v, rfl⟩ | ⟨s, v, rfl⟩
+  rcases hop with ⟨s, v, rfl⟩ | ⟨s, v, rfl⟩ | ⟨s, v, rfl⟩ | ⟨s, rfl⟩
   · simp only [sessOp]
     split
     · exact h
@@ -302,6 +302,14 @@ theorem rec_write (cfg : Cfg) (n : Node) (sid : Nat) (mode : Mode) (op : Op) (hg
         | some f =>
           have hidx := getFabric_idx hgf
           exact rec_fabric_write n f { f with label := v } rfl rfl (by rw [hidx]; exact hgf) hg h
+  · simp only [sessOp]
+    split
+    · exact h
+    · cases hgf : getFabric n mode.fab with
+      | none => exact h
+      | some f =>
+        have hidx := getFabric_idx hgf
+        exact rec_fabric_write n f f rfl rfl (by rw [hidx]; exact hgf) hg h
 
 theorem rec_updnoc (cfg : Cfg) (n : Node) (sid s node ser : Nat) (mode : Mode) (h : Rec n) :
     Rec (sessOp cfg n sid mode (.updnoc s node ser)).1 := by
@@ -491,6 +499,7 @@ theorem sessOp_rec (cfg : Cfg) (n : Node) (sid : Nat) (mode : Mode) (op : Op) (h
   | acl s v => exact rec_write cfg n sid mode _ hg h (by simp)
   | grp s v => exact rec_write cfg n sid mode _ hg h (by simp)
   | label s v => exact rec_write cfg n sid mode _ hg h (by simp)
+  | fwrite s => exact rec_write cfg n sid mode _ hg h (by simp)
   | complete s => exact rec_complete cfg n sid s mode hg h
   | rmfab s idx => exact rec_rmfab cfg n sid s idx mode hg h
   | revoke s =>
